@@ -129,6 +129,14 @@ def apply_op(rng, m, op):
             inner = np.sort(rng.uniform(10, (350 if closing else phi - 5), (int(rng.integers(12, 20)) if many else nseg - 1)))
             inner = inner[np.concatenate([[True], np.diff(inner) > (3 if many else 8)])]
             angles = np.concatenate([[0.0], inner, [360.0 if closing else phi]])
+            start = int(rng.integers(0, 4))
+            if start == 1:
+                # the first layer need not sit at zero: a closed ring is one whose last angle is the first one plus 360
+                angles = angles + float(rng.uniform(5, 90))
+            elif start == 2 and not closing:
+                # an open sweep that starts later and ends exactly at 360 degrees
+                angles = angles[angles > 1e-9]
+                angles = angles + (360.0 - angles[-1])
             if rng.integers(0, 3) == 0:
                 return mm.revolve(n=int(rng.integers(2, len(angles))), phi=angles, axis=axis)
             return mm.revolve(phi=angles, axis=axis)
@@ -237,6 +245,13 @@ def case_special(name):
                     for phi, n in ((90, 7), (180, 11), (360, 13), (45.0, 3)):
                         r.revolve(n=n, phi=phi, axis=axis)
                 fem.mesh.Line(a=1, b=3, n=4).revolve(n=6, phi=120, axis=2)
+                # angle arrays that do not start at zero: a closed ring (last = first + 360), an open sweep ending exactly at 360
+                rq = fem.Rectangle(a=(0.5, 1.0), b=(2.0, 2.0), n=(4, 3))
+                s0 = float(rng.uniform(10, 80))
+                rq.revolve(phi=s0 + np.array([0.0, 70.0, 150.0, 200.0, 290.0, 360.0]), axis=0)
+                rq.revolve(phi=np.array([90.0, 180.0, 270.0, 360.0]), axis=0)
+                rq.revolve(phi=np.array([360.0 - s0, 360.0]), axis=0)
+                fem.mesh.Line(a=1, b=3, n=4).revolve(phi=np.array([30.0, 120.0, 240.0, 300.0, 390.0]), axis=2)
                 fem.mesh.Line(a=1, b=3, n=4).expand(n=3, z=2.0)
                 fem.mesh.Point(a=0.5).expand(n=3, z=2.0)
             elif name == "mirror":
